@@ -2,294 +2,1053 @@ package main
 
 // harness C07 -tool gen <out.lean>
 //
-// Regenerates lean/Ecal/Gen/C07.lean from the Go source of the tree under test (package parser):
-//   * const.go    — the numbering of the token ids (iota order) and the node names;
-//   * parser.go   — astNodeMap: (token id, node name, binding, null denotation, left denotation) and the
-//                   entry used for a block-start brace (astNodeBlockBrace);
-//   * the synchronisation skeleton of the token channel: how many `go` statements the package has and
-//     where, whether close(l.tokens) is the last statement of (*lexer).run, whether ParseWithRuntime
-//     defers p.tokens.drain() and whether (*LABuffer).drain ranges over the channel in the calling
-//     goroutine (sync), hands it to a goroutine (async), or is not called at all (none).
-// Anything not understood is reported as "unknown" / ok := false (theorems in Props/C07.lean demand the
-// expected values, so a change of these facts breaks the build of the proof and is reported).
+// Regenerates lean/Ecal/Gen/C07.lean from the Go source of the tree under test (package parser, go/ast).
+// Every fact is SEMANTIC (found by what the code does, following same-package calls, folding constants)
+// and THREE-VALUED: "yes" (established), "no" (positively refuted: a refuting clause was found) or
+// "unknown" (not established - never a violation by itself: evidence note + amplified search).
+// Each fact has its own value; one fact that is not understood does not touch another.
+//
+//   table      astNodeMap entries (token id, node name, binding, null / left denotation): positional or
+//              keyed literals, named constants folded; entries not understood are listed separately;
+//   close      close(<token channel>) is the last action of the producer goroutine's body, in any
+//              spelling (last statement, deferred, in the function the goroutine calls or in a wrapper
+//              closure) - or there is no goroutine at all (lexing finished before parsing);
+//   sync       the rest of the token channel is consumed IN THE CALLING GOROUTINE when ParseWithRuntime
+//              returns: some function reachable from a defer of ParseWithRuntime has a loop receiving
+//              from the token channel. Refuting clauses: a `go` statement on that path (asynchronous
+//              drain), no drain although a producer goroutine exists, and every way of leaving the
+//              loop other than "the channel is closed": select, timers, a loop condition, break /
+//              return not guarded by the `more == false` of a receive;
+//   pkgWrites  package-level variables of package parser written outside init() / var initialisers
+//              (assignment, map / slice element assignment, ++/--, delete): state which outlives a
+//              call and is shared by concurrent calls;
+//   errors     refuting patterns of the error discipline which the model's short-circuit error monad
+//              assumes: an error result of a same-package call that is discarded (expression
+//              statement), and an assignment to `err` inside a loop which neither the loop condition
+//              nor a following test looks at before the next iteration overwrites it. Absence of these
+//              patterns does NOT establish the discipline: the value is then "unknown".
 
 import (
 	"fmt"
 	"go/ast"
 	"go/token"
 	"os"
+	"sort"
 	"strconv"
 	"strings"
 )
 
-// c07CallsOutsideGo: the expression contains a call of a method with this name which is not inside a go statement.
-func c07CallsOutsideGo(e ast.Node, method string) bool {
-	found := false
-	var walk func(n ast.Node) bool
-	walk = func(n ast.Node) bool {
-		switch v := n.(type) {
-		case *ast.GoStmt:
-			return false
-		case *ast.CallExpr:
-			if se, ok := v.Fun.(*ast.SelectorExpr); ok && se.Sel.Name == method {
-				found = true
-			}
-		}
-		return true
-	}
-	ast.Inspect(e, walk)
-	return found
+type c07Src struct {
+	files      []*ast.File
+	funcs      map[string][]*ast.FuncDecl // by bare name (functions and methods)
+	chanFields map[string]bool            // struct fields of channel type
+	intConst   map[string]int
+	strConst   map[string]string
+	tokID      map[string]int
+	pkgVars    map[string]bool
+	errFuncs   map[string]bool // functions / methods whose last result is `error`
 }
 
-func c07IsCloseTokens(c *ast.CallExpr) bool {
-	if id, ok := c.Fun.(*ast.Ident); !ok || id.Name != "close" || len(c.Args) != 1 {
-		return false
+func c07Name(e ast.Expr) string {
+	switch v := e.(type) {
+	case *ast.Ident:
+		return v.Name
+	case *ast.SelectorExpr:
+		return v.Sel.Name
+	case *ast.StarExpr:
+		return c07Name(v.X)
+	case *ast.ParenExpr:
+		return c07Name(v.X)
 	}
-	se, ok := c.Args[0].(*ast.SelectorExpr)
-	return ok && se.Sel.Name == "tokens"
+	return "?"
 }
 
-func c07GenTool(out string) int {
+func (x *c07Src) load() error {
 	files, err := c08ParsePackage()
 	if err != nil {
-		fmt.Println("cannot parse package parser:", err)
-		return 1
+		return err
 	}
-	ok := true
-	var why []string
-	fail := func(f string, a ...interface{}) { ok = false; why = append(why, fmt.Sprintf(f, a...)) }
-
-	tokID := map[string]int{}
-	nodeName := map[string]string{}
-	type entry struct {
-		id            int
-		name          string
-		binding       int
-		nud, led, tok string
-	}
-	var entries []entry
-	blockBrace := entry{id: -1}
-	goStmts := 0
-	goWhere := "-"
-	closeLast := false
-	deferDrain := false
-	drainKind := "unknown"
-
-	lit := func(e ast.Expr) (string, bool) {
-		switch v := e.(type) {
-		case *ast.BasicLit:
-			if v.Kind == token.STRING {
-				s, err := strconv.Unquote(v.Value)
-				return s, err == nil
-			}
-		case *ast.Ident:
-			if s, ok := nodeName[v.Name]; ok {
-				return s, true
-			}
-		}
-		return "", false
-	}
-	fn := func(e ast.Expr) string {
-		if id, ok := e.(*ast.Ident); ok {
-			return id.Name
-		}
-		return "?"
-	}
-	node := func(e ast.Expr) (entry, bool) {
-		if u, ok := e.(*ast.UnaryExpr); ok {
-			e = u.X
-		}
-		cl, ok := e.(*ast.CompositeLit)
-		if !ok || len(cl.Elts) != 8 {
-			return entry{}, false
-		}
-		nm, ok1 := lit(cl.Elts[0])
-		bl, ok2 := cl.Elts[5].(*ast.BasicLit)
-		if !ok1 || !ok2 {
-			return entry{}, false
-		}
-		b, err := strconv.Atoi(bl.Value)
-		if err != nil {
-			return entry{}, false
-		}
-		return entry{name: nm, binding: b, nud: fn(cl.Elts[6]), led: fn(cl.Elts[7])}, true
-	}
-
-	// pass 1: constants
+	x.files = files
+	x.funcs = map[string][]*ast.FuncDecl{}
+	x.chanFields = map[string]bool{}
+	x.intConst = map[string]int{}
+	x.strConst = map[string]string{}
+	x.tokID = map[string]int{}
+	x.pkgVars = map[string]bool{}
+	x.errFuncs = map[string]bool{}
 	for _, f := range files {
 		for _, d := range f.Decls {
-			gd, ok := d.(*ast.GenDecl)
-			if !ok || gd.Tok != token.CONST {
-				continue
-			}
-			iota := 0
-			isTok := false
-			for k, sp := range gd.Specs {
-				vs := sp.(*ast.ValueSpec)
-				if k == 0 {
-					if id, ok := vs.Type.(*ast.Ident); ok && id.Name == "LexTokenID" {
-						isTok = true
+			switch v := d.(type) {
+			case *ast.FuncDecl:
+				x.funcs[v.Name.Name] = append(x.funcs[v.Name.Name], v)
+				if v.Type.Results != nil && len(v.Type.Results.List) > 0 {
+					last := v.Type.Results.List[len(v.Type.Results.List)-1]
+					if id, ok := last.Type.(*ast.Ident); ok && id.Name == "error" {
+						recv := ""
+						if v.Recv != nil && len(v.Recv.List) == 1 {
+							recv = c07Name(v.Recv.List[0].Type)
+						}
+						x.errFuncs[recv+"."+v.Name.Name] = true
 					}
 				}
-				for j, n := range vs.Names {
-					if isTok {
-						tokID[n.Name] = iota
-					} else if j < len(vs.Values) {
-						if bl, ok := vs.Values[j].(*ast.BasicLit); ok && bl.Kind == token.STRING {
-							if s, err := strconv.Unquote(bl.Value); err == nil {
-								nodeName[n.Name] = s
+			case *ast.GenDecl:
+				switch v.Tok {
+				case token.TYPE:
+					for _, sp := range v.Specs {
+						if st, ok := sp.(*ast.TypeSpec).Type.(*ast.StructType); ok {
+							for _, fl := range st.Fields.List {
+								if _, ok := fl.Type.(*ast.ChanType); ok {
+									for _, n := range fl.Names {
+										x.chanFields[n.Name] = true
+									}
+								}
 							}
 						}
 					}
+				case token.VAR:
+					for _, sp := range v.Specs {
+						for _, n := range sp.(*ast.ValueSpec).Names {
+							x.pkgVars[n.Name] = true
+						}
+					}
+				case token.CONST:
+					iota := 0
+					isTok := false
+					var lastExpr ast.Expr
+					for k, sp := range v.Specs {
+						vs := sp.(*ast.ValueSpec)
+						if k == 0 {
+							if id, ok := vs.Type.(*ast.Ident); ok && id.Name == "LexTokenID" {
+								isTok = true
+							}
+						}
+						for j, n := range vs.Names {
+							if isTok {
+								x.tokID[n.Name] = iota
+								continue
+							}
+							var e ast.Expr
+							if j < len(vs.Values) {
+								e = vs.Values[j]
+								lastExpr = e
+							} else {
+								e = lastExpr
+							}
+							if s, ok := x.foldStr(e); ok {
+								x.strConst[n.Name] = s
+							} else if i, ok := x.foldInt(e, iota); ok {
+								x.intConst[n.Name] = i
+							}
+						}
+						iota++
+					}
 				}
-				iota++
 			}
 		}
 	}
-	if len(tokID) == 0 {
-		fail("token id constants not found")
+	return nil
+}
+
+func (x *c07Src) foldStr(e ast.Expr) (string, bool) {
+	switch v := e.(type) {
+	case *ast.BasicLit:
+		if v.Kind == token.STRING {
+			s, err := strconv.Unquote(v.Value)
+			return s, err == nil
+		}
+	case *ast.Ident:
+		s, ok := x.strConst[v.Name]
+		return s, ok
+	case *ast.ParenExpr:
+		return x.foldStr(v.X)
+	case *ast.BinaryExpr:
+		if v.Op == token.ADD {
+			a, ok1 := x.foldStr(v.X)
+			b, ok2 := x.foldStr(v.Y)
+			return a + b, ok1 && ok2
+		}
 	}
-	// pass 2: tables and the synchronisation skeleton
-	for _, f := range files {
+	return "", false
+}
+
+func (x *c07Src) foldInt(e ast.Expr, iota int) (int, bool) {
+	switch v := e.(type) {
+	case nil:
+		return 0, false
+	case *ast.BasicLit:
+		if v.Kind == token.INT {
+			i, err := strconv.ParseInt(v.Value, 0, 64)
+			return int(i), err == nil
+		}
+	case *ast.Ident:
+		if v.Name == "iota" {
+			return iota, true
+		}
+		i, ok := x.intConst[v.Name]
+		return i, ok
+	case *ast.ParenExpr:
+		return x.foldInt(v.X, iota)
+	case *ast.UnaryExpr:
+		if i, ok := x.foldInt(v.X, iota); ok {
+			switch v.Op {
+			case token.SUB:
+				return -i, true
+			case token.ADD:
+				return i, true
+			}
+		}
+	case *ast.BinaryExpr:
+		a, ok1 := x.foldInt(v.X, iota)
+		b, ok2 := x.foldInt(v.Y, iota)
+		if ok1 && ok2 {
+			switch v.Op {
+			case token.ADD:
+				return a + b, true
+			case token.SUB:
+				return a - b, true
+			case token.MUL:
+				return a * b, true
+			case token.QUO:
+				if b != 0 {
+					return a / b, true
+				}
+			case token.SHL:
+				return a << uint(b), true
+			}
+		}
+	case *ast.CallExpr: // int(x), LexTokenID(x)
+		if len(v.Args) == 1 {
+			return x.foldInt(v.Args[0], iota)
+		}
+	}
+	return 0, false
+}
+
+// ---------------------------------------------------------------- table
+
+type c07Entry struct {
+	id            int
+	name          string
+	binding       int
+	nud, led, tok string
+}
+
+func (x *c07Src) astNodeFields() []string {
+	for _, f := range x.files {
+		for _, d := range f.Decls {
+			if gd, ok := d.(*ast.GenDecl); ok && gd.Tok == token.TYPE {
+				for _, sp := range gd.Specs {
+					ts := sp.(*ast.TypeSpec)
+					if st, ok := ts.Type.(*ast.StructType); ok && ts.Name.Name == "ASTNode" {
+						var names []string
+						for _, fl := range st.Fields.List {
+							for _, n := range fl.Names {
+								names = append(names, n.Name)
+							}
+						}
+						return names
+					}
+				}
+			}
+		}
+	}
+	return nil
+}
+
+// node reads one ASTNode literal (positional or keyed).
+func (x *c07Src) node(e ast.Expr, fields []string) (c07Entry, bool) {
+	if u, ok := e.(*ast.UnaryExpr); ok {
+		e = u.X
+	}
+	cl, ok := e.(*ast.CompositeLit)
+	if !ok {
+		return c07Entry{}, false
+	}
+	vals := map[string]ast.Expr{}
+	for i, el := range cl.Elts {
+		if kv, ok := el.(*ast.KeyValueExpr); ok {
+			vals[c07Name(kv.Key)] = kv.Value
+		} else if i < len(fields) {
+			vals[fields[i]] = el
+		} else {
+			return c07Entry{}, false
+		}
+	}
+	ent := c07Entry{nud: "nil", led: "nil"}
+	if v, ok := vals["Name"]; ok {
+		s, ok := x.foldStr(v)
+		if !ok {
+			return ent, false
+		}
+		ent.name = s
+	}
+	if v, ok := vals["binding"]; ok {
+		b, ok := x.foldInt(v, 0)
+		if !ok {
+			return ent, false
+		}
+		ent.binding = b
+	}
+	den := func(k string) (string, bool) {
+		v, ok := vals[k]
+		if !ok {
+			return "nil", true
+		}
+		if id, ok := v.(*ast.Ident); ok {
+			return id.Name, true
+		}
+		return "", false // a closure or something else: not understood
+	}
+	var ok1, ok2 bool
+	ent.nud, ok1 = den("nullDenotation")
+	ent.led, ok2 = den("leftDenotation")
+	return ent, ok1 && ok2
+}
+
+// ---------------------------------------------------------------- channel skeleton
+
+func (x *c07Src) localChans(body ast.Node) map[string]bool {
+	res := map[string]bool{}
+	ast.Inspect(body, func(n ast.Node) bool {
+		if as, ok := n.(*ast.AssignStmt); ok {
+			for i, r := range as.Rhs {
+				isChan := false
+				if c, ok := r.(*ast.CallExpr); ok {
+					if id, ok := c.Fun.(*ast.Ident); ok && id.Name == "make" && len(c.Args) > 0 {
+						_, isChan = c.Args[0].(*ast.ChanType)
+					}
+					if id, ok := c.Fun.(*ast.Ident); ok && id.Name == "Lex" {
+						isChan = true
+					}
+				}
+				if se, ok := r.(*ast.SelectorExpr); ok && x.chanFields[se.Sel.Name] {
+					isChan = true
+				}
+				if isChan && i < len(as.Lhs) {
+					if id, ok := as.Lhs[i].(*ast.Ident); ok {
+						res[id.Name] = true
+					}
+				}
+			}
+		}
+		return true
+	})
+	return res
+}
+
+func (x *c07Src) isChan(e ast.Expr, local map[string]bool) bool {
+	switch v := e.(type) {
+	case *ast.SelectorExpr:
+		return x.chanFields[v.Sel.Name]
+	case *ast.Ident:
+		return local[v.Name]
+	case *ast.ParenExpr:
+		return x.isChan(v.X, local)
+	case *ast.CallExpr:
+		if id, ok := v.Fun.(*ast.Ident); ok && id.Name == "Lex" {
+			return true
+		}
+	}
+	return false
+}
+
+func (x *c07Src) isCloseChan(s ast.Stmt, local map[string]bool) bool {
+	var c *ast.CallExpr
+	switch v := s.(type) {
+	case *ast.ExprStmt:
+		c, _ = v.X.(*ast.CallExpr)
+	case *ast.DeferStmt:
+		c = v.Call
+	}
+	if c == nil {
+		return false
+	}
+	if id, ok := c.Fun.(*ast.Ident); ok && id.Name == "close" && len(c.Args) == 1 {
+		return x.isChan(c.Args[0], local)
+	}
+	return false
+}
+
+// closesLast: in this body, closing the token channel is the last action (three-valued).
+func (x *c07Src) closesLast(body *ast.BlockStmt, depth int) string {
+	if body == nil || depth > 4 {
+		return "unknown"
+	}
+	local := x.localChans(body)
+	// a deferred close at the top level of the body runs after everything else on every exit
+	for _, s := range body.List {
+		if d, ok := s.(*ast.DeferStmt); ok {
+			if x.isCloseChan(d, local) {
+				return "yes"
+			}
+			if fl, ok := d.Call.Fun.(*ast.FuncLit); ok {
+				for _, t := range fl.Body.List {
+					if x.isCloseChan(t, local) {
+						return "yes"
+					}
+				}
+			}
+		}
+	}
+	if len(body.List) == 0 {
+		return "unknown"
+	}
+	last := body.List[len(body.List)-1]
+	hasReturn := false
+	ast.Inspect(body, func(n ast.Node) bool {
+		switch n.(type) {
+		case *ast.FuncLit:
+			return false
+		case *ast.ReturnStmt:
+			hasReturn = true
+		}
+		return true
+	})
+	if x.isCloseChan(last, local) {
+		if !hasReturn {
+			return "yes"
+		}
+		return "no" // an early return skips the close: the consumer's `for range` never ends
+	}
+	// the body ends by calling a same-package function which itself closes last
+	if es, ok := last.(*ast.ExprStmt); ok {
+		if c, ok := es.X.(*ast.CallExpr); ok && !hasReturn {
+			for _, fd := range x.funcs[c07Name(c.Fun)] {
+				if r := x.closesLast(fd.Body, depth+1); r == "yes" {
+					return r
+				}
+			}
+		}
+	}
+	return "unknown"
+}
+
+// reach collects the bodies reachable from a call expression through same-package calls and closures.
+func (x *c07Src) reach(n ast.Node, depth int, seen map[*ast.BlockStmt]bool, out *[]*ast.BlockStmt) {
+	if n == nil || depth > 5 {
+		return
+	}
+	ast.Inspect(n, func(m ast.Node) bool {
+		switch v := m.(type) {
+		case *ast.FuncLit:
+			if !seen[v.Body] {
+				seen[v.Body] = true
+				*out = append(*out, v.Body)
+			}
+		case *ast.CallExpr:
+			name := c07Name(v.Fun)
+			for _, fd := range x.funcs[name] {
+				if fd.Body != nil && !seen[fd.Body] {
+					seen[fd.Body] = true
+					*out = append(*out, fd.Body)
+					x.reach(fd.Body, depth+1, seen, out)
+				}
+			}
+		}
+		return true
+	})
+}
+
+// loopVerdict: a loop receiving from the token channel; "yes" if the only way out is the closed channel.
+func (x *c07Src) loopVerdict(loop ast.Stmt, local map[string]bool) (isRecvLoop bool, verdict string, why string) {
+	switch l := loop.(type) {
+	case *ast.RangeStmt:
+		if !x.isChan(l.X, local) {
+			return false, "", ""
+		}
+		bad := ""
+		ast.Inspect(l.Body, func(n ast.Node) bool {
+			switch v := n.(type) {
+			case *ast.FuncLit:
+				return false
+			case *ast.BranchStmt:
+				if v.Tok == token.BREAK || v.Tok == token.GOTO {
+					bad = "break/goto inside the range loop"
+				}
+			case *ast.ReturnStmt:
+				bad = "return inside the range loop"
+			case *ast.SelectStmt:
+				bad = "select inside the range loop"
+			}
+			return true
+		})
+		if bad != "" {
+			return true, "no", bad
+		}
+		return true, "yes", ""
+	case *ast.ForStmt:
+		// does it receive from the channel at all?
+		recv := false
+		moreVars := map[string]bool{}
+		ast.Inspect(l, func(n ast.Node) bool {
+			switch v := n.(type) {
+			case *ast.UnaryExpr:
+				if v.Op == token.ARROW && x.isChan(v.X, local) {
+					recv = true
+				}
+			case *ast.AssignStmt:
+				if len(v.Rhs) == 1 && len(v.Lhs) == 2 {
+					if u, ok := v.Rhs[0].(*ast.UnaryExpr); ok && u.Op == token.ARROW && x.isChan(u.X, local) {
+						moreVars[c07Name(v.Lhs[1])] = true
+					}
+				}
+			}
+			return true
+		})
+		if !recv {
+			return false, "", ""
+		}
+		if l.Cond != nil {
+			return true, "no", "the receive loop has a condition of its own (bounded drain)"
+		}
+		bad := ""
+		var walk func(n ast.Node, guarded bool)
+		walk = func(n ast.Node, guarded bool) {
+			ast.Inspect(n, func(m ast.Node) bool {
+				if m == n {
+					return true
+				}
+				switch v := m.(type) {
+				case *ast.FuncLit:
+					return false
+				case *ast.SelectStmt:
+					bad = "select in the receive loop (a second way out)"
+				case *ast.CallExpr:
+					nm := c07Name(v.Fun)
+					if nm == "After" || nm == "NewTimer" || nm == "WithTimeout" || nm == "WithDeadline" || nm == "Tick" {
+						bad = "timer in the receive loop"
+					}
+				case *ast.IfStmt:
+					// `if !more { return }` / `if more == false` / `if _, more := <-ch; !more { … }`
+					g := false
+					switch c := v.Cond.(type) {
+					case *ast.UnaryExpr:
+						g = c.Op == token.NOT && moreVars[c07Name(c.X)]
+					case *ast.BinaryExpr:
+						g = c.Op == token.EQL && moreVars[c07Name(c.X)] && c07Name(c.Y) == "false"
+					}
+					if v.Init != nil {
+						walk(v.Init, guarded)
+					}
+					walk(v.Body, guarded || g)
+					if v.Else != nil {
+						walk(v.Else, guarded)
+					}
+					return false
+				case *ast.BranchStmt:
+					if (v.Tok == token.BREAK || v.Tok == token.GOTO) && !guarded {
+						bad = "break not guarded by the closed-channel test"
+					}
+				case *ast.ReturnStmt:
+					if !guarded {
+						bad = "return not guarded by the closed-channel test"
+					}
+				}
+				return true
+			})
+		}
+		walk(l.Body, false)
+		if bad != "" {
+			return true, "no", bad
+		}
+		return true, "yes", ""
+	}
+	return false, "", ""
+}
+
+// parsesFromClosedLocalChannel: the channel handed to NewLABuffer is a local one (made here, not the result of Lex)
+// which this function closes itself before parsing starts - the lexer has finished by then.
+func (x *c07Src) parsesFromClosedLocalChannel(pwr *ast.FuncDecl) bool {
+	made := map[string]bool{}
+	closed := map[string]bool{}
+	arg := ""
+	ast.Inspect(pwr.Body, func(n ast.Node) bool {
+		switch v := n.(type) {
+		case *ast.AssignStmt:
+			for i, r := range v.Rhs {
+				if c, ok := r.(*ast.CallExpr); ok && i < len(v.Lhs) {
+					if id, ok := c.Fun.(*ast.Ident); ok && id.Name == "make" && len(c.Args) > 0 {
+						if _, ok := c.Args[0].(*ast.ChanType); ok {
+							made[c07Name(v.Lhs[i])] = true
+						}
+					}
+				}
+			}
+		case *ast.CallExpr:
+			switch c07Name(v.Fun) {
+			case "close":
+				if len(v.Args) == 1 {
+					closed[c07Name(v.Args[0])] = true
+				}
+			case "NewLABuffer":
+				if len(v.Args) > 0 {
+					if id, ok := v.Args[0].(*ast.Ident); ok {
+						arg = id.Name
+					}
+				}
+			}
+		}
+		return true
+	})
+	return arg != "" && made[arg] && closed[arg]
+}
+
+// ---------------------------------------------------------------- main
+
+func c07GenTool(out string) int {
+	x := &c07Src{}
+	if err := x.load(); err != nil {
+		fmt.Println("cannot parse package parser:", err)
+		return 1
+	}
+	var notes []string
+	note := func(f string, a ...interface{}) { notes = append(notes, fmt.Sprintf(f, a...)) }
+
+	// ---- table
+	fields := x.astNodeFields()
+	var entries []c07Entry
+	var notUnderstood []string
+	tableFound := false
+	blockBrace := c07Entry{id: -1}
+	blockBraceSeen := false
+	for _, f := range x.files {
+		ast.Inspect(f, func(n ast.Node) bool {
+			handle := func(lhs string, rhs ast.Expr) {
+				switch lhs {
+				case "astNodeMap":
+					cl, ok := rhs.(*ast.CompositeLit)
+					if !ok {
+						return
+					}
+					tableFound = true
+					for _, el := range cl.Elts {
+						kv, ok := el.(*ast.KeyValueExpr)
+						if !ok {
+							notUnderstood = append(notUnderstood, "?")
+							continue
+						}
+						key := c07Name(kv.Key)
+						id, ok2 := x.tokID[key]
+						e, ok := x.node(kv.Value, fields)
+						if !ok || !ok2 {
+							notUnderstood = append(notUnderstood, key)
+							continue
+						}
+						e.id, e.tok = id, key
+						entries = append(entries, e)
+					}
+				case "astNodeBlockBrace":
+					blockBraceSeen = true
+					if e, ok := x.node(rhs, fields); ok {
+						blockBrace = e
+						blockBrace.id = x.tokID["TokenLBRACE"]
+					}
+				}
+			}
+			switch v := n.(type) {
+			case *ast.AssignStmt:
+				if len(v.Lhs) == 1 && len(v.Rhs) == 1 {
+					handle(c07Name(v.Lhs[0]), v.Rhs[0])
+				}
+			case *ast.ValueSpec:
+				if len(v.Names) == 1 && len(v.Values) == 1 {
+					handle(v.Names[0].Name, v.Values[0])
+				}
+			}
+			return true
+		})
+	}
+	tableUnderstood := tableFound && len(notUnderstood) == 0 && len(entries) > 0 && len(x.tokID) > 0
+	if !tableUnderstood {
+		note("table: astNodeMap not completely understood (entries not understood: %v)", notUnderstood)
+	}
+	blockBraceKnown := blockBrace.id >= 0
+	if !blockBraceKnown {
+		note("table: the block-start brace entry was not understood (assignment seen: %v)", blockBraceSeen)
+	}
+
+	// ---- goroutines, close, drain
+	type goSite struct {
+		fn   string
+		stmt *ast.GoStmt
+		body *ast.BlockStmt
+	}
+	var gos []goSite
+	var pwr *ast.FuncDecl
+	anyClose := false
+	for _, f := range x.files {
 		for _, d := range f.Decls {
 			fd, ok := d.(*ast.FuncDecl)
 			if !ok || fd.Body == nil {
 				continue
 			}
-			recv := ""
-			if fd.Recv != nil && len(fd.Recv.List) == 1 {
-				if st, ok := fd.Recv.List[0].Type.(*ast.StarExpr); ok {
-					recv = fn(st.X)
-				}
+			if fd.Name.Name == "ParseWithRuntime" {
+				pwr = fd
 			}
-			full := fd.Name.Name
-			if recv != "" {
-				full = "(*" + recv + ")." + full
-			}
+			local := x.localChans(fd.Body)
 			ast.Inspect(fd.Body, func(n ast.Node) bool {
 				switch v := n.(type) {
 				case *ast.GoStmt:
-					goStmts++
-					goWhere = full
+					gos = append(gos, goSite{fd.Name.Name, v, fd.Body})
+				case *ast.ExprStmt:
+					if x.isCloseChan(v, local) {
+						anyClose = true
+					}
 				case *ast.DeferStmt:
-					// `defer x.drain()` or `defer func() { … x.drain() … }()` — the call runs in the deferring goroutine
-					if full == "ParseWithRuntime" && c07CallsOutsideGo(v.Call, "drain") {
-						deferDrain = true
+					if x.isCloseChan(v, local) {
+						anyClose = true
 					}
-					// `defer close(l.tokens)` as a statement of run itself: executed after everything else on every exit
-					if full == "(*lexer).run" && c07IsCloseTokens(v.Call) {
-						for _, st := range fd.Body.List {
-							if st == ast.Stmt(v) {
-								closeLast = true
-							}
-						}
-					}
-				case *ast.AssignStmt:
-					if len(v.Lhs) == 1 && len(v.Rhs) == 1 {
-						switch fn(v.Lhs[0]) {
-						case "astNodeMap":
-							cl, ok := v.Rhs[0].(*ast.CompositeLit)
-							if !ok {
-								fail("astNodeMap is not assigned a composite literal")
-								break
-							}
-							for _, el := range cl.Elts {
-								kv, ok := el.(*ast.KeyValueExpr)
-								if !ok {
-									fail("astNodeMap element is not key: value")
-									continue
-								}
-								e, ok := node(kv.Value)
-								id, ok2 := tokID[fn(kv.Key)]
-								if !ok || !ok2 {
-									fail("astNodeMap entry %s not understood", fn(kv.Key))
-									continue
-								}
-								e.id, e.tok = id, fn(kv.Key)
-								entries = append(entries, e)
-							}
-						case "astNodeBlockBrace":
-							if e, ok := node(v.Rhs[0]); ok {
-								blockBrace = e
-								blockBrace.id = tokID["TokenLBRACE"]
-							} else {
-								fail("astNodeBlockBrace not understood")
-							}
+				}
+				return true
+			})
+		}
+	}
+	closeFact, syncFact := "unknown", "unknown"
+	closeWhy, syncWhy := "", ""
+	// which go statements are on the drain path (reachable from a defer of ParseWithRuntime)?
+	var drainBodies []*ast.BlockStmt
+	nDefers := 0
+	if pwr != nil {
+		seen := map[*ast.BlockStmt]bool{}
+		ast.Inspect(pwr.Body, func(n ast.Node) bool {
+			if d, ok := n.(*ast.DeferStmt); ok {
+				nDefers++
+				x.reach(d.Call, 0, seen, &drainBodies)
+			}
+			return true
+		})
+	}
+	inDrain := func(g *ast.GoStmt) bool {
+		for _, b := range drainBodies {
+			found := false
+			ast.Inspect(b, func(n ast.Node) bool {
+				if n == ast.Node(g) {
+					found = true
+				}
+				return true
+			})
+			if found {
+				return true
+			}
+		}
+		return false
+	}
+	var producers []goSite
+	asyncDrain := false
+	for _, g := range gos {
+		if inDrain(g.stmt) {
+			asyncDrain = true
+		} else {
+			producers = append(producers, g)
+		}
+	}
+	switch {
+	case len(producers) == 0:
+		closeFact, closeWhy = "yes", "no producer goroutine: nothing runs besides the caller"
+	case len(producers) == 1:
+		g := producers[0]
+		var body *ast.BlockStmt
+		if fl, ok := g.stmt.Call.Fun.(*ast.FuncLit); ok {
+			body = fl.Body
+		}
+		if body != nil {
+			closeFact = x.closesLast(body, 0)
+		} else {
+			// a method / function value: several declarations may share the name - any that closes last counts,
+			// a refutation only if every candidate refutes
+			verdicts := map[string]int{}
+			for _, fd := range x.funcs[c07Name(g.stmt.Call.Fun)] {
+				verdicts[x.closesLast(fd.Body, 0)]++
+			}
+			switch {
+			case verdicts["yes"] > 0:
+				closeFact = "yes"
+			case verdicts["no"] > 0 && verdicts["unknown"] == 0:
+				closeFact = "no"
+			}
+		}
+		closeWhy = "producer goroutine started in " + g.fn
+		if closeFact == "unknown" && !anyClose {
+			closeFact, closeWhy = "no", "a producer goroutine exists but the token channel is never closed"
+		}
+	default:
+		closeWhy = fmt.Sprintf("%d go statements besides the drain path", len(producers))
+	}
+	if closeFact == "unknown" {
+		note("close: not established that closing the token channel is the producer's last action (%s)", closeWhy)
+	}
+	switch {
+	case pwr == nil:
+		syncWhy = "ParseWithRuntime not found"
+	case asyncDrain:
+		syncFact, syncWhy = "no", "a go statement on the path of ParseWithRuntime's deferred calls: the channel is drained asynchronously"
+	case len(producers) == 0:
+		syncFact, syncWhy = "yes", "no producer goroutine: nothing is left to drain"
+	case x.parsesFromClosedLocalChannel(pwr):
+		syncFact, syncWhy = "yes", "ParseWithRuntime parses from a local channel which it has filled and closed itself: no goroutine is alive while parsing"
+	default:
+		found, refuted := false, ""
+		for _, b := range drainBodies {
+			local := x.localChans(b)
+			loopSeen := false
+			ast.Inspect(b, func(n ast.Node) bool {
+				if _, ok := n.(*ast.FuncLit); ok {
+					return true
+				}
+				if st, ok := n.(ast.Stmt); ok {
+					if is, v, why := x.loopVerdict(st, local); is {
+						loopSeen = true
+						if v == "yes" {
+							found = true
+						} else {
+							refuted = why
 						}
 					}
 				}
 				return true
 			})
-			if full == "(*lexer).run" && len(fd.Body.List) > 0 {
-				// `close(l.tokens)` as the last statement of a body without any return statement
-				if es, ok := fd.Body.List[len(fd.Body.List)-1].(*ast.ExprStmt); ok {
-					if c, ok := es.X.(*ast.CallExpr); ok && c07IsCloseTokens(c) {
-						hasReturn := false
-						ast.Inspect(fd.Body, func(n ast.Node) bool {
-							if _, ok := n.(*ast.ReturnStmt); ok {
-								hasReturn = true
-							}
-							return true
-						})
-						if !hasReturn {
-							closeLast = true
+			if loopSeen {
+				// any return of the draining function in front of / outside its loop is a second way out
+				for _, s := range b.List {
+					if is, _, _ := x.loopVerdict(s, local); is {
+						break
+					}
+					ast.Inspect(s, func(n ast.Node) bool {
+						switch n.(type) {
+						case *ast.FuncLit:
+							return false
+						case *ast.ReturnStmt:
+							refuted = "the draining function can return before its receive loop"
 						}
-					}
-				}
-			}
-			if full == "(*LABuffer).drain" {
-				hasGo := false
-				ast.Inspect(fd.Body, func(n ast.Node) bool {
-					if _, ok := n.(*ast.GoStmt); ok {
-						hasGo = true
-					}
-					return true
-				})
-				// a loop in the calling goroutine which receives from the token channel (`for range b.tokens`, or a
-				// `for` statement containing `<-b.tokens`); that the loop only ends on the closed channel is NOT
-				// established syntactically (the leak measurement is what checks it)
-				loopRecv := false
-				ast.Inspect(fd.Body, func(n ast.Node) bool {
-					switch l := n.(type) {
-					case *ast.RangeStmt:
-						if se, ok := l.X.(*ast.SelectorExpr); ok && se.Sel.Name == "tokens" {
-							loopRecv = true
-						}
-					case *ast.ForStmt:
-						ast.Inspect(l, func(m ast.Node) bool {
-							if u, ok := m.(*ast.UnaryExpr); ok && u.Op == token.ARROW {
-								if se, ok := u.X.(*ast.SelectorExpr); ok && se.Sel.Name == "tokens" {
-									loopRecv = true
-								}
-							}
-							return true
-						})
-					}
-					return true
-				})
-				switch {
-				case hasGo:
-					drainKind = "async"
-				case loopRecv:
-					drainKind = "sync"
+						return true
+					})
 				}
 			}
 		}
+		switch {
+		case refuted != "":
+			syncFact, syncWhy = "no", refuted
+		case found:
+			syncFact, syncWhy = "yes", "a loop reachable from a defer of ParseWithRuntime receives until the channel is closed"
+		case nDefers == 0:
+			syncFact, syncWhy = "no", "a producer goroutine exists and ParseWithRuntime defers nothing: the rest of the channel is never consumed"
+		default:
+			syncWhy = "deferred calls exist but no receive loop on the token channel was found on their path"
+		}
 	}
-	mode := drainKind
-	if !deferDrain {
-		mode = "none"
+	if syncFact == "unknown" {
+		note("sync: %s", syncWhy)
 	}
-	if len(entries) == 0 {
-		fail("astNodeMap not found")
+
+	// ---- package-level state written outside init
+	type wr struct{ v, fn string }
+	var writes []wr
+	for _, f := range x.files {
+		for _, d := range f.Decls {
+			fd, ok := d.(*ast.FuncDecl)
+			if !ok || fd.Body == nil || fd.Name.Name == "init" {
+				continue
+			}
+			// names shadowed by parameters / locals are not package variables
+			shadow := map[string]bool{}
+			if fd.Recv != nil {
+				for _, fl := range fd.Recv.List {
+					for _, n := range fl.Names {
+						shadow[n.Name] = true
+					}
+				}
+			}
+			for _, fl := range fd.Type.Params.List {
+				for _, n := range fl.Names {
+					shadow[n.Name] = true
+				}
+			}
+			ast.Inspect(fd.Body, func(n ast.Node) bool {
+				switch v := n.(type) {
+				case *ast.AssignStmt:
+					if v.Tok == token.DEFINE {
+						for _, l := range v.Lhs {
+							shadow[c07Name(l)] = true
+						}
+					}
+				case *ast.ValueSpec:
+					for _, nn := range v.Names {
+						shadow[nn.Name] = true
+					}
+				}
+				return true
+			})
+			root := func(e ast.Expr) string {
+				for {
+					switch v := e.(type) {
+					case *ast.IndexExpr:
+						e = v.X
+					case *ast.SelectorExpr:
+						e = v.X
+					case *ast.StarExpr:
+						e = v.X
+					case *ast.ParenExpr:
+						e = v.X
+					case *ast.Ident:
+						return v.Name
+					default:
+						return ""
+					}
+				}
+			}
+			add := func(e ast.Expr) {
+				if r := root(e); r != "" && x.pkgVars[r] && !shadow[r] {
+					writes = append(writes, wr{r, fd.Name.Name})
+				}
+			}
+			ast.Inspect(fd.Body, func(n ast.Node) bool {
+				switch v := n.(type) {
+				case *ast.AssignStmt:
+					if v.Tok != token.DEFINE {
+						for _, l := range v.Lhs {
+							add(l)
+						}
+					}
+				case *ast.IncDecStmt:
+					add(v.X)
+				case *ast.CallExpr:
+					if id, ok := v.Fun.(*ast.Ident); ok && id.Name == "delete" && len(v.Args) > 0 {
+						add(v.Args[0])
+					}
+				}
+				return true
+			})
+		}
 	}
-	if blockBrace.id < 0 {
-		fail("astNodeBlockBrace not found")
+	sort.Slice(writes, func(i, j int) bool { return writes[i].v+writes[i].fn < writes[j].v+writes[j].fn })
+
+	// ---- error discipline: refuting patterns
+	var errSites []string
+	for _, f := range x.files {
+		for _, d := range f.Decls {
+			fd, ok := d.(*ast.FuncDecl)
+			if !ok || fd.Body == nil {
+				continue
+			}
+			// types of the receiver and the parameters (to tell (*parser).next from (*lexer).next)
+			env := map[string]string{}
+			if fd.Recv != nil {
+				for _, fl := range fd.Recv.List {
+					for _, n := range fl.Names {
+						env[n.Name] = c07Name(fl.Type)
+					}
+				}
+			}
+			for _, fl := range fd.Type.Params.List {
+				for _, n := range fl.Names {
+					env[n.Name] = c07Name(fl.Type)
+				}
+			}
+			mentionsErr := func(n ast.Node) bool {
+				r := false
+				if n == nil {
+					return false
+				}
+				ast.Inspect(n, func(m ast.Node) bool {
+					if id, ok := m.(*ast.Ident); ok && id.Name == "err" {
+						r = true
+					}
+					return true
+				})
+				return r
+			}
+			assignsErr := func(s ast.Stmt) bool {
+				as, ok := s.(*ast.AssignStmt)
+				if !ok {
+					return false
+				}
+				for _, l := range as.Lhs {
+					if c07Name(l) == "err" {
+						return true
+					}
+				}
+				return false
+			}
+			var walk func(list []ast.Stmt, loops []*ast.ForStmt)
+			walk = func(list []ast.Stmt, loops []*ast.ForStmt) {
+				for i, s := range list {
+					// R1: discarded error result
+					if es, ok := s.(*ast.ExprStmt); ok {
+						if c, ok := es.X.(*ast.CallExpr); ok {
+							key := "?"
+							switch fv := c.Fun.(type) {
+							case *ast.Ident:
+								key = "." + fv.Name
+							case *ast.SelectorExpr:
+								if t, ok := env[c07Name(fv.X)]; ok {
+									if _, isIdent := fv.X.(*ast.Ident); isIdent {
+										key = t + "." + fv.Sel.Name
+									}
+								}
+							}
+							if x.errFuncs[key] {
+								errSites = append(errSites, fmt.Sprintf("%s: the error result of %s(…) is discarded", fd.Name.Name, c07Name(c.Fun)))
+							}
+						}
+					}
+					// R2: err assigned inside a loop which nobody looks at before the next iteration
+					if assignsErr(s) && len(loops) > 0 {
+						loop := loops[len(loops)-1]
+						looked := mentionsErr(loop.Cond)
+						for _, t := range list[i+1:] {
+							switch v := t.(type) {
+							case *ast.IfStmt:
+								if mentionsErr(v.Cond) {
+									looked = true
+								}
+							case *ast.ReturnStmt:
+								if mentionsErr(v) {
+									looked = true
+								}
+							}
+						}
+						if !looked {
+							errSites = append(errSites, fmt.Sprintf("%s: err is assigned in a loop whose condition and following statements do not test it", fd.Name.Name))
+						}
+					}
+					switch v := s.(type) {
+					case *ast.BlockStmt:
+						walk(v.List, loops)
+					case *ast.IfStmt:
+						// `if …; err == nil {` tests the value assigned in its init
+						walk(v.Body.List, loops)
+						if e, ok := v.Else.(*ast.BlockStmt); ok {
+							walk(e.List, loops)
+						} else if e, ok := v.Else.(*ast.IfStmt); ok {
+							walk([]ast.Stmt{e}, loops)
+						}
+					case *ast.ForStmt:
+						walk(v.Body.List, append(loops, v))
+					case *ast.RangeStmt:
+						walk(v.Body.List, loops)
+					case *ast.SwitchStmt:
+						for _, c := range v.Body.List {
+							walk(c.(*ast.CaseClause).Body, loops)
+						}
+					}
+				}
+			}
+			walk(fd.Body.List, nil)
+		}
 	}
+	errFact := "unknown"
+	if len(errSites) > 0 {
+		errFact = "no"
+	} else {
+		note("errors: no refuting pattern found (discarded error result / err overwritten in a loop untested); the full discipline " +
+			"(every err value tested before reassignment, before p.node is dereferenced, before a node is appended) is NOT established by this extractor")
+	}
+
+	// ---- output
 	var sb strings.Builder
-	sb.WriteString("/-! GENERATED by `harness C07 -tool gen` from parser/const.go, parser/parser.go, parser/lexer.go, parser/helper.go\n")
-	sb.WriteString("of the tree under test — do not edit. -/\nnamespace Ecal.Gen.C07\n\n")
-	sb.WriteString("/-- astNodeMap: (token id, node name, binding, nullDenotation, leftDenotation) -/\n")
+	sb.WriteString("/-! GENERATED by `harness C07 -tool gen` from package parser of the tree under test — do not edit.\n")
+	sb.WriteString("Facts are three-valued: \"yes\" established, \"no\" refuted, \"unknown\" not established (never an obligation). -/\nnamespace Ecal.Gen.C07\n\n")
+	sb.WriteString("/-- astNodeMap, the entries that were understood: (token id, node name, binding, nullDenotation, leftDenotation) -/\n")
 	sb.WriteString("def astNodeMap : List (Nat × String × Nat × String × String) := [\n")
 	for i, e := range entries {
 		c := ","
@@ -298,23 +1057,49 @@ func c07GenTool(out string) int {
 		}
 		fmt.Fprintf(&sb, "  (%d, %s, %d, %s, %s)%s   -- %s\n", e.id, strconv.Quote(e.name), e.binding, strconv.Quote(e.nud), strconv.Quote(e.led), c, e.tok)
 	}
-	sb.WriteString("]\n\n/-- astNodeBlockBrace: the entry used for `{` while a guard expression is parsed -/\n")
-	fmt.Fprintf(&sb, "def blockBrace : Nat × String × Nat × String × String := (%d, %s, %d, %s, %s)\n\n", blockBrace.id,
-		strconv.Quote(blockBrace.name), blockBrace.binding, strconv.Quote(blockBrace.nud), strconv.Quote(blockBrace.led))
-	fmt.Fprintf(&sb, "/-- ids of the comment / error tokens -/\ndef tokenError : Nat := %d\ndef tokenPreComment : Nat := %d\ndef tokenPostComment : Nat := %d\n\n",
-		tokID["TokenError"], tokID["TokenPRECOMMENT"], tokID["TokenPOSTCOMMENT"])
-	fmt.Fprintf(&sb, "/-- number of `go` statements in package parser, and the function containing the last one -/\ndef goStatements : Nat := %d\ndef goWhere : String := %s\n\n", goStmts, strconv.Quote(goWhere))
-	fmt.Fprintf(&sb, "/-- close(l.tokens) is the last statement of (*lexer).run -/\ndef closeLastInRun : Bool := %v\n\n", closeLast)
-	fmt.Fprintf(&sb, "/-- ParseWithRuntime defers p.tokens.drain() -/\ndef deferDrain : Bool := %v\n\n", deferDrain)
-	fmt.Fprintf(&sb, "/-- how the rest of the token channel is consumed when ParseWithRuntime returns:\n    \"sync\" (for range b.tokens {} in the calling goroutine), \"async\" (a goroutine is started), \"none\" (no deferred drain), \"unknown\" -/\ndef drainMode : String := %s\n\n", strconv.Quote(mode))
-	fmt.Fprintf(&sb, "/-- everything above was understood -/\ndef ok : Bool := %v\n", ok)
-	for _, w := range why {
-		sb.WriteString("-- not understood: " + w + "\n")
+	sb.WriteString("]\n\n/-- every entry of astNodeMap was understood (then the list above is the whole table) -/\n")
+	fmt.Fprintf(&sb, "def tableUnderstood : Bool := %v\n\n", tableUnderstood)
+	sb.WriteString("/-- astNodeBlockBrace: the entry used for `{` while a guard expression is parsed (none = not understood) -/\n")
+	if blockBraceKnown {
+		fmt.Fprintf(&sb, "def blockBrace : Option (Nat × String × Nat × String × String) := some (%d, %s, %d, %s, %s)\n\n", blockBrace.id,
+			strconv.Quote(blockBrace.name), blockBrace.binding, strconv.Quote(blockBrace.nud), strconv.Quote(blockBrace.led))
+	} else {
+		sb.WriteString("def blockBrace : Option (Nat × String × Nat × String × String) := none\n\n")
 	}
-	sb.WriteString("\nend Ecal.Gen.C07\n")
+	fmt.Fprintf(&sb, "/-- ids of the error / comment tokens -/\ndef tokenError : Nat := %d\ndef tokenPreComment : Nat := %d\ndef tokenPostComment : Nat := %d\n\n",
+		x.tokID["TokenError"], x.tokID["TokenPRECOMMENT"], x.tokID["TokenPOSTCOMMENT"])
+	fmt.Fprintf(&sb, "/-- `go` statements of package parser outside the drain path (producer goroutines) -/\ndef producerGoroutines : Nat := %d\n\n", len(producers))
+	fmt.Fprintf(&sb, "/-- closing the token channel is the last action of the producer goroutine (or there is none) -/\ndef closeFact : String := %s\ndef closeWhy : String := %s\n\n", strconv.Quote(closeFact), strconv.Quote(closeWhy))
+	fmt.Fprintf(&sb, "/-- when ParseWithRuntime returns, the rest of the token channel has been consumed in the calling goroutine by a loop\n    whose only way out is the closed channel (or nothing is left running at all) -/\ndef syncFact : String := %s\ndef syncWhy : String := %s\n\n", strconv.Quote(syncFact), strconv.Quote(syncWhy))
+	sb.WriteString("/-- package-level variables of package parser written outside init(): (variable, function) -/\ndef pkgWrites : List (String × String) := [")
+	for i, w := range writes {
+		if i > 0 {
+			sb.WriteString(", ")
+		}
+		fmt.Fprintf(&sb, "(%s, %s)", strconv.Quote(w.v), strconv.Quote(w.fn))
+	}
+	sb.WriteString("]\n\n")
+	fmt.Fprintf(&sb, "/-- error discipline assumed by the model's short-circuit error monad: \"no\" = a refuting pattern was found -/\ndef errFact : String := %s\ndef errSites : List String := [", strconv.Quote(errFact))
+	for i, s := range errSites {
+		if i > 0 {
+			sb.WriteString(", ")
+		}
+		sb.WriteString(strconv.Quote(s))
+	}
+	sb.WriteString("]\n\n/-- what was not established in this run (evidence notes; not obligations) -/\ndef notes : List String := [")
+	for i, s := range notes {
+		if i > 0 {
+			sb.WriteString(", ")
+		}
+		sb.WriteString(strconv.Quote(s))
+	}
+	sb.WriteString("]\n\nend Ecal.Gen.C07\n")
 	if err := os.WriteFile(out, []byte(sb.String()), 0644); err != nil {
 		fmt.Println(err)
 		return 1
+	}
+	for _, n := range notes {
+		fmt.Println("NOTE", n)
 	}
 	return 0
 }
